@@ -126,3 +126,144 @@ def validOf (tr un : Hdr) (bits : List Nat) : Nat → Nat → Bool :=
     | none => false)
 
 end Driver.ConsensusE
+
+namespace Driver.ConsensusE
+open Lumina.Model.HeaderVerify
+
+/-- `Option<Hash>`: `none` | `-` (Some(Hash::None)) | hex -/
+def ohashArg? (ws : List String) (key : String) : Option (Option Hash) :=
+  match arg? ws key with
+  | some "none" => some none
+  | some "-" => some (some none)
+  | some s => (fromHexChars s.toList).map (fun b => some (some b))
+  | none => none
+
+def parseHashStr (s : String) : Option Hash :=
+  if s == "-" then some none else (fromHexChars s.toList).map some
+
+def blockIdArg? (ws : List String) (key : String) : Option (Option BlockId) :=
+  match arg? ws key with
+  | some "none" => some none
+  | some s =>
+    match s.splitOn ":" with
+    | [h, t, p] =>
+      match parseHashStr h, t.toNat?, parseHashStr p with
+      | some h, some t, some p => some (some { hash := h, pst := t, psh := p })
+      | _, _, _ => none
+    | _ => none
+  | none => none
+
+def parseHeaderF (ws : List String) (pre : String) : Option HeaderF :=
+  let k := fun (s : String) => pre ++ s
+  match (arg? ws (k "hv")).map (·.splitOn ":") with
+  | some [vb, va] =>
+    match vb.toNat?, va.toNat?, arg? ws (k "hc"), natArg? ws (k "hh"), natArg? ws (k "ht"),
+          blockIdArg? ws (k "hl"), ohashArg? ws (k "hlc"), ohashArg? ws (k "hd") with
+    | some vb, some va, some c, some h, some t, some lbi, some lch, some dh =>
+      match hashArg? ws (k "hvh"), hashArg? ws (k "hnv"), hashArg? ws (k "hco"), hexArg? ws (k "hah"),
+            ohashArg? ws (k "hlr"), ohashArg? ws (k "hev"), hexArg? ws (k "hpa") with
+      | some vh, some nv, some co, some ah, some lr, some ev, some pa =>
+        some { versionBlock := vb, versionApp := va, chainId := c.toUTF8.toList, height := h,
+               time := (t : Int), lastBlockId := lbi, lastCommitHash := lch, dataHash := dh,
+               validatorsHash := vh, nextValidatorsHash := nv, consensusHash := co, appHash := ah,
+               lastResultsHash := lr, evidenceHash := ev, proposerAddress := pa }
+      | _, _, _, _, _, _, _ => none
+    | _, _, _, _, _, _, _, _ => none
+  | _ => none
+
+def parseValK (s : String) : Option ValK :=
+  match s.splitOn ":" with
+  | [pk, a, p] =>
+    match fromHexChars pk.toList, fromHexChars a.toList, p.toNat? with
+    | some pk, some a, some p => some { pk := pk, addr := a, power := p }
+    | _, _, _ => none
+  | _ => none
+
+def parseSetK (ws : List String) (pre : String) : Option SetK :=
+  match arg? ws (pre ++ "vals"), natArg? ws (pre ++ "total"), natArg? ws (pre ++ "prop") with
+  | some v, some total, some prop =>
+    match (if v == "-" then some [] else (v.splitOn ",").mapM parseValK) with
+    | some vals => some { vals := vals, total := total, hasProposer := prop == 1 }
+    | none => none
+  | _, _, _ => none
+
+def parseEntryF (s : String) : Option (EntryF (List UInt8)) :=
+  if s == "0" then some { flag := .absent, addr := [], ts := 0, sig := none }
+  else match s.splitOn ":" with
+    | [f, a, t, sg] =>
+      match fromHexChars a.toList, t.toNat?, (if sg == "-" then some none else (fromHexChars sg.toList).map some) with
+      | some a, some t, some sg =>
+        if f == "1" then some { flag := .nil, addr := a, ts := (t : Int), sig := sg }
+        else if f == "2" then some { flag := .commit, addr := a, ts := (t : Int), sig := sg }
+        else none
+      | _, _, _ => none
+    | _ => none
+
+def parseCommitF (ws : List String) (pre : String) : Option (CommitF (List UInt8)) :=
+  match natArg? ws (pre ++ "ch"), natArg? ws (pre ++ "round"), hashArg? ws (pre ++ "bid"),
+        natArg? ws (pre ++ "pst"), hashArg? ws (pre ++ "psh"), arg? ws (pre ++ "sigs") with
+  | some h, some r, some bid, some pst, some psh, some sg =>
+    match (if sg == "-" then some [] else (sg.splitOn ",").mapM parseEntryF) with
+    | some sigs => some { height := h, round := r, blockId := { hash := bid, pst := pst, psh := psh }, sigs := sigs }
+    | none => none
+  | _, _, _, _, _, _ => none
+
+structure ParsedEH where
+  eh : ExtHeader (List UInt8)
+  prims : Prims (List UInt8)
+  bits : List Nat
+
+/-- header + commit + set + DAH + the three hashes computed by the real code + oracle bits -/
+def parseEH (ws : List String) (pre : String) : Option ParsedEH :=
+  match parseHeaderF ws pre, parseCommitF ws pre, parseSetK ws pre,
+        hexListArg? ws (pre ++ "rows"), hexListArg? ws (pre ++ "cols") with
+  | some h, some c, some s, some rows, some cols =>
+    match hashArg? ws (pre ++ "xh"), hashArg? ws (pre ++ "xv"), hashArg? ws (pre ++ "xd"),
+          natListArg? ws (pre ++ "xb") with
+    | some xh, some xv, some xd, some bits =>
+      let eh : ExtHeader (List UInt8) :=
+        { header := h, commit := c, valset := s, dah := { rows := rows, cols := cols } }
+      -- the oracle as a function of (key, signed content, signature): bit j was computed by the
+      -- real code for (key of validator j, vote bytes of entry j, signature of entry j)
+      let table : List (List UInt8 × VoteMsg × Option (List UInt8) × Nat) :=
+        (List.range c.sigs.length).filterMap (fun j =>
+          match s.vals[j]?, c.sigs[j]? with
+          | some v, some e => some (v.pk, voteMsg eh e, e.sig, bits.getD j 0)
+          | _, _ => none)
+      some { eh := eh
+             prims := { hHeader := fun _ => xh, hValset := fun _ => xv, hDah := fun _ => xd,
+                        sigValid := fun pk m sg =>
+                          match table.find? (fun t => t.1 == pk && t.2.1 == m && t.2.2.1 == some sg) with
+                          | some t => t.2.2.2 == 1
+                          | none => false }
+             bits := bits }
+    | _, _, _, _ => none
+  | _, _, _, _, _ => none
+
+def showValErr : ValErr → String
+  | .versionBlock => "version-block"
+  | .chainIdLen => "chain-id-len"
+  | .heightZero => "height-zero"
+  | .genesisLastBlockId => "genesis-last-block-id"
+  | .missingLastBlockId => "missing-last-block-id"
+  | .blockIdZero => "block-id-zero"
+  | .noSignatures => "no-signatures"
+  | .commitSigNoSignature => "commit-sig-no-signature"
+  | .validatorsEmpty => "validators-empty"
+  | .proposerNone => "proposer-none"
+  | .validatorsHash => "validators-hash"
+  | .dahHash => "dah-hash"
+  | .commitHeight => "commit-height"
+  | .commitBlockIdHash => "commit-block-id-hash"
+  | .commit e => showErr e
+  | .unsupportedAppVersion v => s!"unsupported-app-version {v}"
+  | .dahColsRows => "dah-cols-rows"
+  | .dahTooSmall => "dah-too-small"
+  | .dahTooBig => "dah-too-big"
+
+def showValOut : ValOut → String
+  | .ok => "ok"
+  | .err e => s!"err {showValErr e}"
+  | .panic => "panic"
+
+end Driver.ConsensusE
